@@ -40,11 +40,13 @@ def run(ctx):
         rule="a macro-generated family of 137 boundary types (17 built-in leaves, 12 registered types of size/align "
              "classes 0/1, 0/8, 1, 3, 2, 4, 8, 12/4, 24/8, 16/16, heap-owning; Option/List of every leaf; Result/Verdict "
              "pairs; depth 2-3 nestings) x scenarios {identity, registered function echo, registered constant, context "
-             "field in 3 field orders, script-side construction/matching, every argument position of arities 2/4/7 in "
-             "both directions, narrow-int arithmetic handed to Rust} x edge values then random values; plus the model "
-             "facts (layout, offsets, discriminants, lowered and runtime-call signatures of 137 single and 400/6000 random "
-             "multi-parameter signatures) against the Lean driver; a class is distinct by (scenario, position, "
-             "size/align class signature of the type) with every round agreeing",
+             "field in 3 manual + 3 derived field orders, script-side construction/matching/?/accept/reject, registered "
+             "methods (sized and zero-sized receiver, static), list get/for, every argument position of arities 2/4/7 in "
+             "both directions directly and behind a script-to-script call, narrow-int arithmetic handed to Rust} x edge "
+             "values then random values; plus the model facts (layout, payload offsets, discriminant bytes at predicted "
+             "offsets of real values, Lowerer::location offsets, lowered and runtime-call signatures) on the family, on "
+             "300/3000 random deeper types and 400/6000 random multi-parameter signatures against the Lean driver; a class "
+             "is distinct by (scenario, position, size/align class signature of the type) with every round agreeing",
         search=search,
     )
 
